@@ -9,12 +9,12 @@ class ProgBaseSuite:
     name = "prog"
     module = "harness.suites.prog"
     coq_module = "CheckProg"
-    families = (("mixed", 0.31), ("transfer", 0.26), ("fault", 0.22), ("lwops", 0.06), ("drain", 0.04), ("dtype", 0.04), ("wide", 0.02), ("dilute", 0.02), ("big", 0.03))
+    families = (("mixed", 0.25), ("transfer", 0.26), ("fault", 0.22), ("lwops", 0.06), ("drain", 0.04), ("dtype", 0.04), ("wide", 0.02), ("dilute", 0.02), ("twins", 0.03), ("retune", 0.03), ("big", 0.03))
     counts = {"quick": 220, "thorough": 6000}
     devices = ("evo", "fluent", "base")
     rule = (
         "random programs (1-4 plates/troughs, 2-10 calls of add/remove/aspirate/dispense/transfer/distribute/"
-        "comment/wash/flush/commit/decontaminate/set_diti) from families mixed/transfer/fault/lwops/drain/dtype (initial volumes as float32/float16/int arrays)/wide (column >= 100 next to a small plate)/dilute (1:1024 series)/big, every program "
+        "comment/wash/flush/commit/decontaminate/set_diti) from families mixed/transfer/fault/lwops/drain/dtype (initial volumes as float32/float16/int arrays)/wide (column >= 100 next to a small plate)/dilute (1:1024 series)/twins (two labware objects with one name and geometry)/retune (max_volume re-assigned between calls; oracle-only)/big, every program "
         "run on EvoWorklist and FluentWorklist (and one in five on BaseWorklist); volumes dyadic, chosen against a shadow "
         "of the volumes so that most calls succeed, the fault family ends with a call refused at a chosen sub-step; "
         "plus EVERY pair of calls from a fixed 30-call boundary-value alphabet on a 2x2 plate and a 2x2 trough (thorough: also without "
@@ -39,6 +39,8 @@ class ProgBaseSuite:
             devs = ["evo", "fluent"] + (["base"] if i % 5 == 0 else [])
             devs = [d for d in devs if d in self.devices]
             cases += proggen.with_devices(base, devs)
+        for base in proggen.gen_length_programs():
+            cases += proggen.with_devices(base, [d for d in ("evo", "fluent") if d in self.devices])
         # bounded-exhaustive small scope: every pair of calls from a fixed boundary-value alphabet (thorough: both
         # split settings, and a sample of triples)
         for base in proggen.gen_small_programs(2, autosplit=True):
